@@ -16,7 +16,7 @@ use neurons::tensor::Tensor;
 
 pub fn meta(_ctx: &Ctx) -> Meta {
     Meta {
-        rule: "ALL (N,B,E) with N in 1..6, B in 1..7 (B=1, B not dividing N, B=N, B>N), E in 1..3, plus a 1024->64->2 network with (N,B) in {(32,32),(40,32),(150,32),(70,64)}, plus (N,B) in {(64,64),(65,64),(65,65),(70,128),(130,65),(130,100),(129,64)} x networks {dense-linear on one-hot inputs (sample i touches column i only), dense+bias tanh -> dense, conv -> dense, dense -> feedback[dense]x2 -> dense} x optimizers {SGD, SGDM, Adam, RMSprop} x objectives {MSE, AE}; batch sizes usize::MAX, usize::MAX-1, usize::MAX/2+1; a group whose only sample has an exactly zero loss and gradient; pairwise different samples; also two consecutive learn() calls on the same network (16 settings x 4 phase pairs). Oracle: reference trainer (consecutive groups in order, per-sample gradients at the pre-step weights summed, one optimizer step per group with step number = epoch, loss = mean over groups of mean per-sample loss) vs learn()'s final weights and returned loss vector. A state is the weight vector after each optimizer step; non-trivial = runs with >= 2 groups or >= 2 samples per group".into(),
+        rule: "ALL (N,B,E) with N in 1..6, B in 1..7 (B=1, B not dividing N, B=N, B>N), E in 1..3, plus a 1024->64->2 network with (N,B) in {(32,32),(40,32),(150,32),(70,64)}, plus (N,B) in {(64,64),(65,64),(65,65),(70,128),(130,65),(130,100),(129,64),(130,129),(257,256),(258,257),(300,300),(513,512),(520,520),(700,1000),(1025,1024),(1030,1030),(1100,600)} x networks {dense-linear on one-hot inputs (sample i touches column i only), dense+bias tanh -> dense, conv -> dense, dense -> feedback[dense]x2 -> dense} x optimizers {SGD, SGDM, Adam, RMSprop} x objectives {MSE, AE}; batch sizes usize::MAX, usize::MAX-1, usize::MAX/2+1; a group whose only sample has an exactly zero loss and gradient; pairwise different samples; also two consecutive learn() calls on the same network (16 settings x 4 phase pairs). Oracle: reference trainer (consecutive groups in order, per-sample gradients at the pre-step weights summed, one optimizer step per group with step number = epoch, loss = mean over groups of mean per-sample loss) vs learn()'s final weights and returned loss vector. A state is the weight vector after each optimizer step; non-trivial = runs with >= 2 groups or >= 2 samples per group".into(),
         bound: "N <= 6, B <= 7, E <= 3 (thorough: N <= 16, B <= 17, E <= 6, and every pair of learn() calls with N in {3,5,6}, B, B2 in 1..4, E, E2 in 1..2); complete product".into(),
         exhaustive: true,
         assumptions: vec![
@@ -450,7 +450,9 @@ pub fn cases(thorough: bool) -> Vec<Kv> {
     }
     // groups larger than the internal evaluation chunk size (64): N and B around and above it
     for ospec in [opts()[0], opts()[2]] {
-        for (n, b) in [(64usize, 64usize), (65, 64), (65, 65), (70, 128), (130, 65), (130, 100), (129, 64)] {
+        // ... and around the larger powers of two (128 .. 1024) a blocked implementation might use: one group just above
+        // the block size, a group that is a block and a remainder, a data set smaller than the requested batch
+        for (n, b) in [(64usize, 64usize), (65, 64), (65, 65), (70, 128), (130, 65), (130, 100), (129, 64), (130, 129), (257, 256), (258, 257), (300, 300), (513, 512), (520, 520), (700, 1000), (1025, 1024), (1030, 1030), (1100, 600)] {
             out.push(Kv::new().put("net", "mlp").put("opt", ospec.name()).put("obj", "MSE").put("n", n).put("b", b).put("e", 1));
         }
     }
